@@ -141,7 +141,7 @@ def check_flag_tags(repo, run, rule, tags=None):
             run.ok(rule, (e.fi.file, e.make.lineno, e.fi.qualname), '%s -> _make_node(kwargs=%s)' % (tag, e.kwargs), 'pure flag setter')
     md = table.get('!metadata:')
     if tags is None or '!metadata:' in tags:
-        if md is None or not md.multi or md.node_type is not None or md.data_arg_name is not None or md.parse_scalars is not True:
+        if md is None or not md.multi or md.node_type is not None or md.data_arg_name is not None or md.parse_scalars is not True or not any('_decode_metadata(' in x for x in (md.kwargs_dynamic or [])):
             run.violation(rule, md.fi if md else ('awesomeyaml/yaml.py', 0, '<module>'), '!metadata: constructor', 'metadata tag is not a plain-node prefix constructor')
         else:
             run.ok(rule, (md.fi.file, md.make.lineno, md.fi.qualname), '!metadata: -> _make_node(kwargs=_decode_metadata(suffix))', 'plain node type, default data handling')
